@@ -220,40 +220,111 @@ struct checks {
     }
     template <class SP> static size_t bits_of(SP*, std::false_type) { return sizeof(SP) * 8; }
     template <class SP> static size_t bits_of(SP*, std::true_type) { return gil::pixel_bit_size<SP>::value; }
-    void scanline() {
-        Img A; if (!full(A)) return;
-        vh::evals(1);
-        long rows = 0; cio::diff_t first; bool any = false;
+    // One pass over a fresh scanline reader following an access plan: 'd' dereference the iterator and
+    // compare the row with row `pos` of A, '+' increment (an increment that was not preceded by a dereference
+    // makes the reader *skip* the row), 'aN;' std::advance by N.  Returns false when the reader could not be
+    // made / the rows are too narrow (reported by the every-row pattern only).
+    struct plan_result { bool ran = false; bool mismatch = false; long row = -1; long derefs = 0; long end_pos = 0; bool hit_end = false; cio::diff_t d; std::string what; bool threw = false; bool narrow = false; size_t rowbytes = 0, need = 0; };
+    plan_result run_plan(Img const& A, std::string const& plan, bool to_end) {
+        plan_result R;
         try {
             // make_scanline_reader(Device&, tag) does not compile for any device (probe c13_probe 0): the
             // file-name factory is the one public way to obtain a scanline reader
             cio::scratch_file sf("c13s", "img");
             if (!cio::spill(sf.path, f.bytes)) vh::fatal_monitor("harness", "cannot write scratch file " + sf.path);
             auto reader = gil::make_scanline_reader(sf.path, Tag());
-            typedef decltype(reader) reader_t;
             typedef typename ScanImg::view_t::x_iterator x_it;
             // the rows must be wide enough to hold A's pixels in the scanline layout; otherwise the two ways of
             // reading do not even deliver the same channels (and the bytes must not be interpreted)
-            size_t need = ((size_t)A.width() * scan_bits_per_pixel() + 7) / 8;
-            if ((size_t)reader._scanline_length < need) {
-                vh::viol(key("scanline-rowbytes"), vh::cat(f.name, ": scanline rows have ", (size_t)reader._scanline_length, " bytes, ", need, " needed for ", A.width(), " pixels of the type read_image delivers"));
-                return;
-            }
+            R.need = ((size_t)A.width() * scan_bits_per_pixel() + 7) / 8;
+            R.rowbytes = (size_t)reader._scanline_length;
+            if (R.rowbytes < R.need) { R.narrow = true; return R; }
+            R.ran = true;
             auto it = reader.begin(); auto end = reader.end();
-            for (; it != end; ++it, ++rows) {
-                if (rows >= A.height()) { ++rows; break; }
+            long pos = 0;
+            auto deref = [&]() {
                 gil::byte_t* rowp = *it;
+                ++R.derefs;
                 auto rv = gil::interleaved_view(A.width(), 1, (x_it)rowp, reader._scanline_length);
-                cio::diff_t d = compare_sem(gil::subimage_view(gil::const_view(A), 0, (int)rows, (int)A.width(), 1), rv);
-                if (d.any() && !any) { any = true; first = d; first.fy = rows; }
+                cio::diff_t d = compare_sem(gil::subimage_view(gil::const_view(A), 0, (int)pos, (int)A.width(), 1), rv);
+                if (d.any() && !R.mismatch) { R.mismatch = true; R.row = pos; R.d = d; }
+            };
+            for (size_t i = 0; i < plan.size(); ++i) {
+                char c = plan[i];
+                if (c == 'd') { if (pos >= A.height() || it == end) break; deref(); }
+                else if (c == '+') { if (pos >= A.height() || it == end) break; ++it; ++pos; }
+                else if (c == 'a') { long n = 0; ++i; while (i < plan.size() && plan[i] != ';') n = n * 10 + (plan[i++] - '0');
+                                     if (pos + n > A.height()) break; std::advance(it, n); pos += n; }
             }
-        } catch (std::exception const& e) {
-            vh::viol(key(scanline_supported ? "scanline-exception" : "scanline-unsupported"), vh::cat(f.name, ": ", e.what()));
+            if (to_end) {           // continue dereferencing every remaining row and count them
+                for (; it != end; ++it, ++pos) { if (pos >= A.height()) { ++pos; break; } deref(); }
+                R.hit_end = true;
+            }
+            R.end_pos = pos;
+        } catch (std::exception const& e) { R.threw = true; R.what = e.what(); }
+        return R;
+    }
+    static const char* scan_pattern(int k) {
+        static const char* n[] = { "every-row", "skip-then-deref", "deref-skip-deref", "advance", "alternate" };
+        return n[k];
+    }
+    // pattern 0: dereference every row.  1: ++ k times without dereferencing, then dereference row k.
+    // 2: dereference row 0 (or j), skip some rows, dereference row k.  3: std::advance(it, k), dereference.
+    // 4: dereference only every other row (even rows; odd rows; each row twice).
+    void scanline(int pattern) {
+        Img A; if (!full(A)) return;
+        vh::rng r = vh::case_rng();
+        long H = A.height();
+        if (pattern == 0) {
+            vh::evals(1); vh::distinct(1);
+            plan_result R = run_plan(A, "", true);
+            if (R.threw) { vh::viol(key(scanline_supported ? "scanline-exception" : "scanline-unsupported"), vh::cat(f.name, ": ", R.what)); return; }
+            if (R.narrow) { vh::viol(key("scanline-rowbytes"), vh::cat(f.name, ": scanline rows have ", R.rowbytes, " bytes, ", R.need, " needed for ", A.width(), " pixels of the type read_image delivers")); return; }
+            if (R.end_pos != H) vh::viol(key("scanline-rowcount"), vh::cat(f.name, ": ", R.end_pos, " rows, image height ", H));
+            else if (R.mismatch) vh::viol(key("scanline"), vh::cat(f.name, ": first differing row ", R.row, ": ", R.d.str()));
             return;
         }
-        if (rows != A.height()) vh::viol(key("scanline-rowcount"), vh::cat(f.name, ": ", rows, " rows, image height ", A.height()));
-        else if (any) vh::viol(key("scanline"), vh::cat(f.name, ": first differing row ", first.fy, ": ", first.str()));
-        vh::distinct(1);
+        // the rows addressed: edge values, then seeded ones (keys carry the pattern, never k)
+        std::vector<long> ks;
+        long cand[] = { 1, 2, 3, H / 2, H - 2, H - 1 };
+        for (long k : cand) if (k >= 1 && k <= H - 1 && std::find(ks.begin(), ks.end(), k) == ks.end()) ks.push_back(k);
+        if (H > 4) for (int i = 0; i < (vh::thorough() ? 6 : 2); ++i) { long k = 1 + (long)r.below(H - 1); if (std::find(ks.begin(), ks.end(), k) == ks.end()) ks.push_back(k); }
+        std::vector<std::string> plans;
+        switch (pattern) {
+        case 1: for (long k : ks) plans.push_back(std::string((size_t)k, '+') + "d");
+                for (long k : ks) if (k + 1 <= H - 1) plans.push_back(std::string((size_t)k, '+') + "d+d");      // and the row after it
+                break;
+        case 2: for (long k : ks) plans.push_back("d" + std::string((size_t)k, '+') + "d");
+                for (long k : ks) if (k >= 2) plans.push_back("+d" + std::string((size_t)(k - 1), '+') + "d");
+                if (H >= 2) plans.push_back("d+d");
+                break;
+        case 3: for (long k : ks) plans.push_back(vh::cat("a", k, ";d"));
+                for (long k : ks) if (k >= 2) plans.push_back(vh::cat("da", k, ";d"));
+                break;
+        case 4: { std::string even, odd, twice;
+                  for (long y = 0; y < H; ++y) { even += (y % 2 == 0) ? "d+" : "+"; odd += (y % 2 == 1) ? "d+" : "+"; twice += "dd+"; }
+                  plans.push_back(even); if (H >= 2) plans.push_back(odd); plans.push_back(twice);
+                  std::string third; for (long y = 0; y < H; ++y) third += (y % 3 == 2) ? "d+" : "+"; if (H >= 3) plans.push_back(third);
+                  break; }
+        }
+        long checked = 0;
+        for (std::string const& plan : plans) {
+            vh::evals(1);
+            plan_result R = run_plan(A, plan, false);
+            if (R.threw) {
+                // variants the reader rejects altogether are reported once, by the every-row pattern
+                if (scanline_supported) vh::viol(key("scanline-access-exception", scan_pattern(pattern)), vh::cat(f.name, " plan ", plan.size() > 40 ? plan.substr(0, 40) + "..." : plan, ": ", R.what));
+                else return;
+                continue;
+            }
+            if (R.narrow) return;
+            ++checked;
+            if (R.mismatch) vh::viol(key("scanline-access", scan_pattern(pattern)),
+                                     vh::cat(f.name, " ", A.width(), "x", H, " plan '", plan.size() > 40 ? plan.substr(0, 40) + "..." : plan, "' (d = dereference, + = increment, aN; = std::advance N): row ", R.row,
+                                             " obtained this way differs from row ", R.row, " of read_image: ", R.d.str()));
+        }
+        vh::distinct(checked);
+        if (checked) vh::obs(vh::cat("scanline.", scan_pattern(pattern)));
     }
 
     // (4) read_view into a view inside an arena; (8) too-small views are rejected
@@ -410,7 +481,7 @@ struct checks {
         switch (path) {
         case 0: subrect(sub / 4, sub % 4); break;
         case 1: convert(); break;
-        case 2: scanline(); break;
+        case 2: scanline(sub); break;
         case 3: readview(sub); break;
         case 4: anyimage(); break;
         case 5: devices(); break;
@@ -855,11 +926,12 @@ int main(int argc, char** argv) {
         for (int p = 0; p < NPATHS; ++p) {
             entry_t const& e = files()[i];
             std::string id = e.f.name.substr(e.f.name.find(':') + 1);
-            for (int sub = 0; sub < (p == 0 ? 16 : p == 3 ? 4 : 1); ++sub) {
+            for (int sub = 0; sub < (p == 0 ? 16 : p == 3 ? 4 : p == 2 ? 5 : 1); ++sub) {
                 // the case class carries format, path, file variant and (sub-rectangles) the rectangle class, so
                 // that a fatal report is attributed as precisely as an oracle mismatch
                 std::string cls = vh::cat("c13.", FMT, ".", PATHS[p], ".", e.f.variant);
                 if (p == 0) cls += vh::cat(".", XCLS[sub / 4], "-", YCLS[sub % 4]);
+                if (p == 2 && sub > 0) cls += vh::cat(".", sub == 1 ? "skip-then-deref" : sub == 2 ? "deref-skip-deref" : sub == 3 ? "advance" : "alternate");
                 if (p == 3) cls += vh::cat(".", sub == 0 ? "whole" : sub == 1 ? "xoff-toright-yoff-tobottom" : sub == 2 ? "x0-shortw-y0-shorth" : "xoff-shortw-yoff-shorth");
                 if (!vh::begin_case(cls, id)) continue;
                 run_file(e, p, sub);
